@@ -136,6 +136,10 @@ def check_scan(res: Result, proj: Project, rule: str = "K2"):
     comp = proj.method(cls, "compute_consensus_rankings")
     res.saw(comp)
     profiles = [list(map(float, p)) for p in spec.WEAK_ORDERS_3] + [[3.0, 1.0, 1.0, 2.0], [4.0], [2.0, 5.0, 2.0, 7.0, 2.0]]
+    # scores are real numbers (non-integer penalties, small or large units): values inside one unit interval, below any
+    # fixed tolerance, and large values that differ by less than their rounding to few digits
+    profiles += [[1.5, 1.0, 1.25], [2.5, 2.0], [0.75, 0.5, 0.75, 0.25], [2e-9, 1e-9, 2e-9], [1e12 + 0.5, 1e12, 1e12 + 0.5],
+                 [0.0, 0.0], [0.5, 0.0, 0.0]]
     bad = None
     bad_ctx = None
     n = 0
